@@ -720,7 +720,8 @@ def run(chk):
             else:
                 viol.append((d, u, o, diffs, sig))
         # correspondence with the model for the update kinds it covers
-        if len(docs0) == 1 and len(pr["docs"]) == 1 and not u.get("rel") and not u.get("subtree") and docs0[0].get("content") and pr["docs"][0].get("content"):
+        if len(docs0) == 1 and len(pr["docs"]) == 1 and not u.get("rel") and not u.get("subtree") and u["kind"] != "mapappend" \
+                and docs0[0].get("content") and pr["docs"][0].get("content"):
             root0 = docs0[0]["content"][0]
             cp = content_path(root0, u["path"])
             if cp is None:
@@ -860,7 +861,7 @@ def classify(diffs, u, t0, doc):
     anything that does not fit exactly is reported)."""
     P = tuple(u["path"])
     kinds = {x[0] for x in diffs}
-    if kinds == {"comment-moved"} and (u.get("subtree") or u["kind"] in ("append", "create")):
+    if kinds == {"comment-moved"} and (u.get("subtree") or u["kind"] in ("append", "create", "mapappend")):
         cone_comments = " ".join(c for q, e in t0.items() if is_under(P, q) for c in e.get("cm", []))
         if any(re.search(re.escape(x[1]) + r"\b", cone_comments) for x in diffs):
             return "foot-comment-moves-past-next-sibling"
